@@ -43,6 +43,12 @@ def main():
         summary = [l for l in r.stdout.splitlines() if l.startswith(prop + " tier=")]
         det["checks"][prop] = {"exit": r.returncode, "detected": r.returncode == 1, "keys": keys[:12],
                                "summary": summary[-1][:200] if summary else r.stderr[-300:]}
+    try:  # keep a hand-written note about an earlier miss across re-evaluations
+        old = json.load(open(os.path.join(dest, "detection.json")))
+        if old.get("notes"):
+            det["notes"] = old["notes"]
+    except Exception:
+        pass
     with open(os.path.join(dest, "detection.json"), "w") as f:
         json.dump(det, f, indent=1)
     print(tag, "demo_ok=", det["demo_ok"], {p: (v["detected"], v["keys"][:3]) for p, v in det["checks"].items()})
